@@ -158,9 +158,11 @@ func solveOne(o *Obligation, dir string, timeout time.Duration, all bool, order 
 func solveAll(obls []*Obligation, dir string, timeout time.Duration, all bool, par int, seed int64) {
 	_ = os.MkdirAll(dir, 0o755)
 	// quick tier: z3 5.1 in two configurations and cvc5; the thorough tier adds z3 4.8.12
-	order := []int{0, 1, 2}
+	// (a second random seed in the first stage: solving time of the quantified queries is
+	// bimodal in the seed - under a second for most seeds, minutes for a few)
+	order := []int{0, 1, 2, 4}
 	if seed%2 == 1 {
-		order = []int{1, 0, 2}
+		order = []int{1, 0, 2, 4}
 	}
 	if all {
 		order = append(order, 3)
